@@ -51,7 +51,7 @@ theorem loops_lanewise :
 theorem spec_table_covered :
     (∀ s ∈ specUnary, s ∈ UnOp.all.map UnOp.symbol) ∧
     (∀ s ∈ specBinary, s ∈ BinOp.all.map BinOp.symbol ++ ShiftOp.all.map ShiftOp.symbol) ∧
-    (∀ s ∈ specAssign, s ∈ AssignOp.all.map AssignOp.symbol) ∧
+    (∀ s ∈ specAssign, (s ++ "=") ∈ AssignOp.all.map AssignOp.symbol) ∧
     (∀ s ∈ specCompare, s ∈ CmpOp.all.map CmpOp.symbol) ∧
     (∀ s ∈ specLogic, s ∈ BoolOp.all.map BoolOp.symbol) := by decide
 
@@ -141,25 +141,25 @@ theorem lane_cond_nested (m : Vec (Vec Bool S₂) S) (a b : Vec (Vec α S₂) S)
   cond_nested m a b
 
 /-- **anyTrue_iff** etc.: the four reductions of a mask are ∃ / ∀ over its lanes -/
-theorem anyTrue_iff' (m : Vec Bool S) :
-    ∃ r, Simd.reduceFlat .anyTrue m = some r ∧ (r = true ↔ ∃ l, ∃ h : l < S, m[l] = true) := anyTrue_iff m
-theorem allTrue_iff' (m : Vec Bool S) :
-    ∃ r, Simd.reduceFlat .allTrue m = some r ∧ (r = true ↔ ∀ l, ∀ h : l < S, m[l] = true) := allTrue_iff m
-theorem anyFalse_iff' (m : Vec Bool S) :
-    ∃ r, Simd.reduceFlat .anyFalse m = some r ∧ (r = true ↔ ∃ l, ∃ h : l < S, m[l] = false) := anyFalse_iff m
-theorem allFalse_iff' (m : Vec Bool S) :
-    ∃ r, Simd.reduceFlat .allFalse m = some r ∧ (r = true ↔ ∀ l, ∀ h : l < S, m[l] = false) := allFalse_iff m
+theorem anyTrue_iff (m : Vec Bool S) :
+    ∃ r, Simd.reduceFlat .anyTrue m = some r ∧ (r = true ↔ ∃ l, ∃ h : l < S, m[l] = true) := anyTrue_iff_flat m
+theorem allTrue_iff (m : Vec Bool S) :
+    ∃ r, Simd.reduceFlat .allTrue m = some r ∧ (r = true ↔ ∀ l, ∀ h : l < S, m[l] = true) := allTrue_iff_flat m
+theorem anyFalse_iff (m : Vec Bool S) :
+    ∃ r, Simd.reduceFlat .anyFalse m = some r ∧ (r = true ↔ ∃ l, ∃ h : l < S, m[l] = false) := anyFalse_iff_flat m
+theorem allFalse_iff (m : Vec Bool S) :
+    ∃ r, Simd.reduceFlat .allFalse m = some r ∧ (r = true ↔ ∀ l, ∀ h : l < S, m[l] = false) := allFalse_iff_flat m
 /-- nested masks: the reduction ranges over all lanes of all entries -/
 theorem reduce_nested (k : RedKind) (m : Vec (Vec Bool S₂) S) :
     Simd.reduceNested k m = some (redSpec k (Simd.flatten m)) := reduceNested_eq k m
 
 /-- **nested_lane**: `lane(l, v)` of a vector of vectors is lane `l % S₂` of entry `l / S₂`; entry `(i, j)` is
     lane `i * S₂ + j`; there are `S * S₂` lanes -/
-theorem nested_lane' (v : Vec (Vec α S₂) S) (l : Nat) (hl : l < S * S₂) :
-    ∃ (h1 : l / S₂ < S) (h2 : l % S₂ < S₂), Simd.laneNested l v = some (v[l / S₂])[l % S₂] := nested_lane v l hl
-theorem nested_lane_entry' (v : Vec (Vec α S₂) S) (i j : Nat) (hi : i < S) (hj : j < S₂) :
-    Simd.laneNested (i * S₂ + j) v = some (v[i])[j] := nested_lane_entry v i j hi hj
-theorem nested_lane_count' : laneCount S (laneCount S₂ 1) = S * S₂ := nested_lane_count
+theorem nested_lane (v : Vec (Vec α S₂) S) (l : Nat) (hl : l < S * S₂) :
+    ∃ (h1 : l / S₂ < S) (h2 : l % S₂ < S₂), Simd.laneNested l v = some (v[l / S₂])[l % S₂] := nested_lane_divmod v l hl
+theorem nested_lane_entry (v : Vec (Vec α S₂) S) (i j : Nat) (hi : i < S) (hj : j < S₂) :
+    Simd.laneNested (i * S₂ + j) v = some (v[i])[j] := nested_lane_entry_aux v i j hi hj
+theorem nested_lane_count : laneCount S (laneCount S₂ 1) = S * S₂ := laneCount_nested
 
 theorem lane_of_flat (v : Vec α S) (l : Nat) (hl : l < S) : Simd.lane l v = some v[l] := lane_flat v l hl
 theorem lane_assign (v : Vec α S) (l l' : Nat) (x : α) (hl : l < S) (hl' : l' < S) :
@@ -277,10 +277,28 @@ def exampleMat : Mat (Vec Int 2) 4 :=
      #v[#v[0, 0], #v[0, 0], #v[1, 1], #v[0, 0]],
      #v[#v[0, 0], #v[0, 0], #v[0, 0], #v[3, 7]]]
 
-example : determinant (SimdLike.loop 2) intArith true exampleMat = #v[-6, 0] := by decide
-example : (pivotSearch (SimdLike.loop 2) intArith exampleMat 0).2 = #v[1, 0] := by decide
-example : solve (SimdLike.loop 2) intArith true exampleMat #v[#v[2, 1], #v[1, 1], #v[1, 1], #v[3, 1]] = none := by decide
-example : solve (SimdLike.loop 1) intArith true (laneMat (SimdLike.loop 2) 0 exampleMat |>.map (fun r => r.map fun x => #v[x]))
-    #v[#v[2], #v[1], #v[1], #v[3]] = some #v[#v[1], #v[1], #v[1], #v[1]] := by decide
+
+
+
+/-- both lanes regular, pivot row 1 in lane 0 and pivot row 2 in lane 1 (first step) -/
+def regularMat : Mat (Vec Int 2) 4 :=
+  #v[#v[#v[0, 0], #v[2, 0], #v[0, 1], #v[0, 0]],
+     #v[#v[1, 0], #v[0, 1], #v[0, 0], #v[0, 0]],
+     #v[#v[0, 5], #v[0, 0], #v[1, 0], #v[0, 0]],
+     #v[#v[0, 0], #v[0, 0], #v[0, 0], #v[3, 1]]]
+
+-- mixed lanes: lane 0 regular (det -6), lane 1 singular (det 0, not an artefact of the other lane)
+example : determinant (SimdLike.loop 2) intArith true exampleMat = #v[-6, 0] := by decide +kernel
+-- the two lanes choose different pivot rows in the first step
+example : (pivotSearch (SimdLike.loop 2) intArith regularMat 0).2 = #v[1, 2] := by decide +kernel
+example : determinant (SimdLike.loop 2) intArith true regularMat = #v[-6, -5] := by decide +kernel
+-- `solve_lanewise` has a satisfiable hypothesis (both lanes regular) …
+example : solve (SimdLike.loop 2) intArith true regularMat #v[#v[2, 1], #v[1, 1], #v[1, 5], #v[3, 1]] =
+    some #v[#v[1, 1], #v[1, 1], #v[1, 1], #v[1, 1]] := by decide +kernel
+-- … and `solve_throws_iff` / `invert_throws_iff` are not vacuous either: one singular lane makes the call throw
+example : solve (SimdLike.loop 2) intArith true exampleMat #v[#v[2, 1], #v[1, 1], #v[1, 1], #v[3, 1]] = none := by
+  decide +kernel
+example : invert (SimdLike.loop 2) intArith true exampleMat = none ∧
+    (invert (SimdLike.loop 2) intArith true regularMat).isSome = true := by decide +kernel
 
 end DV.C09
